@@ -545,3 +545,13 @@ CHECKS['C09'].update({
             "proved under DriveAgree (see text)") + " `[a-z]` under re.I is modelled as the ASCII letters; CPython's re.I also lets U+212A (Kelvin sign) and U+017F (long s) match, so "
             "`_get_win_drive('\\u212a:/x')` finds a drive the model does not (str patterns only; not sampled by K3).",
 })
+CHECKS['C04'].update({
+    'text': "THE BRIDGE (C04bridge): the regex side and the walker side meet in one specification. denotes_iff_segsLink / denotes_iff_pathLang_globfree / _one_glob — "
+            "for every well-formed tree: (a path is denoted by the split parts, Spec/Denotes) <-> (pathLangR of the pattern accepts its real name AND it exists AND the "
+            "directory demand AND no piece a `**` stands for is a symlinked directory); and from it the C04 EQUALITY ON THE MODELS — glob results = paths matchReal accepts — "
+            "for every tree and every path: C04_main_globfree (globstar-free patterns), C04_main_one_glob (A/**/B), C04_main_end_glob (A/** and A/**/, provable since the D7 "
+            "repair: both accepting spans of the group give the same link test), under EXTGLOB|SCANDOTDIR(+DOTGLOB) with every excluded defect an explicit hypothesis "
+            "(D3 newline, D8 `**/` on a non-directory, D17 literal first segment, POSIX classes in brackets: posix_split_defect = D34, being repaired). Supporting: "
+            "globSplit_printPath (one part per segment), pass_print_path_real (the REALPATH pass), real_glob_caps / _end (every accepting run binds the group to the same text), "
+            "fsMatch_one_glob / fsMatch_end_glob. " + CHECKS['C04']['text'],
+})
